@@ -437,6 +437,10 @@ def body(draw, env, depth, n_min=1, n_max=None, need_consuming=True, first_must_
             for _ in range(draw(st.integers(1, 2))):
                 acts = [a for a in [draw(action(env, allow=("assign", "assignstr", "delete", "hook", "appendc", "break"), last_ok=False))
                                     for _ in range(draw(st.integers(1, 2)))] if a is not None]
+                if acts and draw(st.integers(0, 3)) == 0:
+                    # nested action-only if (nested conditional actions on one transition)
+                    k2 = draw(st.integers(0, len(acts) - 1))
+                    acts[k2] = ("if", ((draw(condition(env, False)), (acts[k2],)),), None)
                 if acts:
                     branches.append((draw(condition(env, last_ok)), tuple(acts)))
             if branches:
@@ -557,8 +561,14 @@ def loop_stmt(draw, env, depth, followed):
             # counting loop: the break really happens after k iterations
             v = draw(st.sampled_from(env.ints))[1]
             k = draw(st.integers(1, 3))
+            brk = (("break", None),)
+            if draw(st.integers(0, 2)) == 0:
+                # the break sits two action-only ifs deep
+                brk = (("if", ((("bin", ">=", ("var", v), ("num", k, "dec")), brk),), None),)
+                if env.prog.hooks and draw(st.booleans()):
+                    brk = brk + (("hook", draw(st.sampled_from(env.prog.hooks))),)
             return ("loop", name, (("match", m), ("assign", v, ("bin", "+", ("var", v), ("num", 1, "dec"))),
-                                   ("if", ((("bin", draw(st.sampled_from(["==", ">="])), ("var", v), ("num", k, "dec")), (("break", None),)),), None)))
+                                   ("if", ((("bin", draw(st.sampled_from(["==", ">="])), ("var", v), ("num", k, "dec")), brk),), None)))
         cond = draw(condition(env, last_ok=cfg.allow_last))
         return ("loop", name, (("match", m), ("if", ((cond, (("break", None),)),), None)))
     finally:
@@ -655,3 +665,54 @@ def program(draw, cfg):
         argv.append("-feof-support")
     prog.argv = argv
     return prog
+
+
+# ------------------------------------------------------------------------------------------------ focused family: ways of leaving a loop
+
+@st.composite
+def break_loop_program(draw):
+    """loop { <token>; n0 = [n0 + 1]; <break in one of several positions> } <tail>: the break is really taken after k iterations and
+    more input follows in the same chunk. Returns (program, inputs)."""
+    from . import ir as _ir
+    tok = draw(st.sampled_from([b"a", b"ab", b"7"]))
+    k = draw(st.integers(1, 3))
+    cond = ("bin", draw(st.sampled_from([">=", "=="])), ("var", "n0"), ("num", k, "dec"))
+    brk = ("break", draw(st.sampled_from([None, "lp0"])))
+    where = draw(st.sampled_from(["if", "if-if", "if-if-trailing", "if-else", "case-clause", "case-clause-trailing", "if-if-else"]))
+    count = ("assign", "n0", ("bin", "+", ("var", "n0"), ("num", 1, "dec")))
+    hook = ("hook", "h0")
+    if where == "if":
+        inner = (("match", ("lit", tok, "str")), count, ("if", ((cond, (brk,)),), None))
+    elif where == "if-if":
+        inner = (("match", ("lit", tok, "str")), count, ("if", ((cond, (hook, ("if", ((cond, (brk,)),), None))),), None))
+    elif where == "if-if-trailing":
+        inner = (("match", ("lit", tok, "str")), count,
+                 ("if", ((("bin", ">=", ("var", "n0"), ("num", 1, "dec")), (("if", ((cond, (brk,)),), None), ("assign", "n1", ("num", 7, "dec")))),), None))
+    elif where == "if-else":
+        inner = (("match", ("lit", tok, "str")), count, ("if", ((("bin", "<", ("var", "n0"), ("num", k, "dec")), (hook,)),), (brk,)))
+    elif where == "if-if-else":
+        inner = (("match", ("lit", tok, "str")), count,
+                 ("if", ((("bin", ">=", ("var", "n0"), ("num", 0, "dec")), (("if", ((("bin", "<", ("var", "n0"), ("num", k, "dec")), (hook,)),), (brk,)),)),), None))
+    elif where == "case-clause":
+        inner = (("case", False, ((((("lit", tok, "str"),), None, (count,))), (((("lit", b";", "str"),), None, (brk,))))),)
+    else:
+        inner = (("case", False, ((((("lit", tok, "str"),), None, (count,))), (((("lit", b";", "str"),), None, (brk,))))), hook)
+    tail_kind = draw(st.sampled_from(["literal", "same-token", "optional", "append"]))
+    if tail_kind == "literal":
+        tail = (("match", ("lit", b"end", "str")), hook)
+    elif tail_kind == "same-token":
+        tail = (("match", ("lit", tok + b"!", "str")),)
+    elif tail_kind == "optional":
+        tail = (("optional", (("match", ("lit", b"e", "str")), hook)), ("match", ("lit", b".", "str")))
+    else:
+        tail = (("append", "s0", ("re", ("op", ("set", (("r", 0x61, 0x66),), False), "+"), False)), ("match", ("lit", b".", "str")))
+    body = (("loop", "lp0", inner),) + tail
+    prog = _ir.Program([("int", "n0", False, None, 0), ("int", "n1", False, None, 0), ("str", "s0", 4, True, None, False)], ["h0"], [], [], [], body,
+                       [draw(st.sampled_from(OPT_LEVELS))])
+    sep = b";" if where.startswith("case-clause") else b""
+    datas = []
+    for extra in (0, 1):
+        head = tok * (k + extra) + sep
+        for t in (b"end", tok + b"!", b"e.", b".", b"abc."):
+            datas.append(head + t)
+    return prog, datas
